@@ -290,6 +290,9 @@ func (ef *Filter) Process(ctx context.Context, e *eventlogger.Event) (*eventlogg
 				}
 				if f.Kind() == reflect.Ptr {
 					f = f.Elem()
+					if f == reflect.ValueOf(nil) {
+						continue // a nil element: nothing to filter
+					}
 				}
 				if f.Type() == reflect.TypeOf(structpb.Struct{}) {
 					f = f.FieldByName("Fields")
@@ -454,6 +457,9 @@ func (ef *Filter) filterField(ctx context.Context, v reflect.Value, filterOverri
 					}
 					if f.Kind() == reflect.Ptr {
 						f = f.Elem()
+						if f == reflect.ValueOf(nil) {
+							continue // a nil element: nothing to filter
+						}
 					}
 					if f.Type() == reflect.TypeOf(&structpb.Struct{}) {
 						f = f.FieldByName("Fields")
